@@ -44,15 +44,15 @@ Lemma reads_rice_samples p : forall qs rs,
 Proof.
   induction qs as [|q qs IH]; intros [|r rs] Hl Hr Hu; cbn [length] in Hl; try discriminate.
   - intros rd0 rest Hwf Hb. exists rd0. cbn [length rmany part_bits app combine map] in *.
-    repeat split; try assumption; try apply Hwf; [lia | exists 0%nat; reflexivity].
+    fin5 Hwf; [lia | apply rd_adv_refl].
   - inversion Hr as [|? ? Hr1 Hr2]; subst. cbn [combine] in Hu. inversion Hu as [|? ? Hu1 Hu2]; subst.
     intros rd0 rest Hwf Hb. cbn [part_bits] in Hb. rewrite <- app_assoc in Hb.
-    destruct (reads_rice_sample p q r Hr1 Hu1 rd0 _ Hwf Hb) as (r1 & E1 & Hb1 & Hwf1 & Hp1 & (k1 & Hk1)).
-    destruct (IH rs ltac:(lia) Hr2 Hu2 r1 rest Hwf1 Hb1) as (r2 & E2 & Hb2 & Hwf2 & Hp2 & (k2 & Hk2)).
+    destruct (reads_rice_sample p q r Hr1 Hu1 rd0 _ Hwf Hb) as (r1 & E1 & Hb1 & Hwf1 & Hp1 & Hk1).
+    destruct (IH rs ltac:(lia) Hr2 Hu2 r1 rest Hwf1 Hb1) as (r2 & E2 & Hb2 & Hwf2 & Hp2 & Hk2).
     exists r2. cbn [length rmany combine map]. rewrite E1, E2.
     split; [reflexivity|]. split; [exact Hb2|]. split; [exact Hwf2|]. split.
     + rewrite Hp2, Hp1. cbn [part_bits]. rewrite app_length, Nat2N.inj_add. lia.
-    + exists (k1 + k2)%nat. rewrite Hk2, Hk1. apply skipn_skipn'.
+    + exact (rd_adv_trans _ _ _ Hk1 Hk2).
 Qed.
 
 (* ---- partitions: the values, partition by partition ---- *)
@@ -81,22 +81,22 @@ Lemma reads_read_partitions : forall params (first : bool) part warm qs rs,
 Proof.
   induction params as [|p ps IH]; intros first part warm qs rs skipW Hw Hp Hr Hlq Hlr Hu rd0 rest Hwf Hb.
   - exists rd0. cbn [length read_partitions parts_bits parts_values app] in *.
-    repeat split; try assumption; try apply Hwf; [lia | exists 0%nat; reflexivity].
+    fin5 Hwf; [lia | apply rd_adv_refl].
   - inversion Hp as [|? ? Hp1 Hp2]; subst.
     cbn [rems_ok] in Hr. apply Bool.andb_true_iff in Hr. destruct Hr as [Hr1 Hr2].
     cbn [parts_u_ok] in Hu. destruct Hu as [Hu1 Hu2].
     cbn [length] in Hlq, Hlr. cbn [parts_bits] in Hb. rewrite <- !app_assoc in Hb.
-    destruct (reads_rbits 4 p ltac:(change (2 ^ 4) with 16; lia) rd0 _ Hwf Hb) as (r1 & E1 & Hb1 & Hwf1 & Hp_1 & (k1 & Hk1)).
+    destruct (reads_rbits 4 p ltac:(change (2 ^ 4) with 16; lia) rd0 _ Hwf Hb) as (r1 & E1 & Hb1 & Hwf1 & Hp_1 & Hk1).
     assert (Hskip : (skipW <= part)%nat) by (unfold skipW; destruct first; lia).
     set (qpart := skipn skipW (firstn part qs)) in *. set (rpart := skipn skipW (firstn part rs)) in *.
     assert (Hlen_q : length qpart = (part - skipW)%nat) by (unfold qpart; rewrite skipn_length, firstn_length; lia).
     assert (Hlen_r : length rpart = (part - skipW)%nat) by (unfold rpart; rewrite skipn_length, firstn_length; lia).
     destruct (reads_rice_samples p qpart rpart ltac:(lia)
                 ltac:(apply Forall_skipn; apply forallb_Forall_ltb; exact Hr1) Hu1
-                r1 _ Hwf1 Hb1) as (r2 & E2 & Hb2 & Hwf2 & Hp_2 & (k2 & Hk2)).
+                r1 _ Hwf1 Hb1) as (r2 & E2 & Hb2 & Hwf2 & Hp_2 & Hk2).
     destruct (IH false part warm (skipn part qs) (skipn part rs) Hw Hp2 Hr2
                 ltac:(rewrite skipn_length; lia) ltac:(rewrite skipn_length; lia) Hu2
-                r2 rest Hwf2 Hb2) as (r3 & E3 & Hb3 & Hwf3 & Hp_3 & (k3 & Hk3)).
+                r2 rest Hwf2 Hb2) as (r3 & E3 & Hb3 & Hwf3 & Hp_3 & Hk3).
     exists r3. cbn [length read_partitions]. rewrite E1.
     destruct (N.eqb_spec p 15) as [?|_]; [lia|].
     replace (N.to_nat (if first then N.of_nat part - warm else N.of_nat part)) with (length qpart)
@@ -105,7 +105,7 @@ Proof.
     split; [reflexivity|]. split; [exact Hb3|]. split; [exact Hwf3|]. split.
     + rewrite Hp_3, Hp_2, Hp_1. cbn [parts_bits]. fold qpart rpart.
       rewrite !app_length, !Nat2N.inj_add. change (N.to_nat 4) with 4%nat. lia.
-    + exists (k1 + (k2 + k3))%nat. rewrite Hk3, Hk2, Hk1, !skipn_skipn'. reflexivity.
+    + exact (rd_adv_trans _ _ _ Hk1 (rd_adv_trans _ _ _ Hk2 Hk3)).
 Qed.
 
 (* the per-partition values are the component's residual values without the warm-up *)
@@ -179,15 +179,15 @@ Proof.
   assert (Hplen1 : 1 <= plen) by nia.
   intros rd0 rest Hwf Hb. unfold ParseResidual.residual_bits in Hb. fold pc plen in Hb.
   change (false :: false :: ?x) with ([false; false] ++ x) in Hb. rewrite <- !app_assoc in Hb.
-  destruct (reads_rbits 2 0 ltac:(reflexivity) rd0 _ Hwf Hb) as (r1 & E1 & Hb1 & Hwf1 & Hp1 & (k1 & Hk1)).
-  destruct (reads_rbits 4 (r_order r) ltac:(change (2 ^ 4) with 16; lia) r1 _ Hwf1 Hb1) as (r2 & E2 & Hb2 & Hwf2 & Hp2 & (k2 & Hk2)).
+  destruct (reads_rbits 2 0 ltac:(reflexivity) rd0 _ Hwf Hb) as (r1 & E1 & Hb1 & Hwf1 & Hp1 & Hk1).
+  destruct (reads_rbits 4 (r_order r) ltac:(change (2 ^ 4) with 16; lia) r1 _ Hwf1 Hb1) as (r2 & E2 & Hb2 & Hwf2 & Hp2 & Hk2).
   assert (Hparams_len : length (r_params r) = N.to_nat pc) by lia.
   assert (Hlen_q : length (r_quot r) = (length (r_params r) * N.to_nat plen)%nat).
   { rewrite Hparams_len. apply Nat2N.inj. rewrite Nat2N.inj_mul, !N2Nat.id. lia. }
   assert (Hlen_r : length (r_rem r) = (length (r_params r) * N.to_nat plen)%nat) by (rewrite <- Hl; exact Hlen_q).
   assert (Hwp : (N.to_nat (r_warmup r) <= N.to_nat plen)%nat) by lia.
   destruct (reads_read_partitions (r_params r) true (N.to_nat plen) (r_warmup r) (r_quot r) (r_rem r)
-              Hwp (forallb_lt15 _ Hpar) Hrem Hlen_q Hlen_r Hu r2 rest Hwf2 Hb2) as (r3 & E3 & Hb3 & Hwf3 & Hp3 & (k3 & Hk3)).
+              Hwp (forallb_lt15 _ Hpar) Hrem Hlen_q Hlen_r Hu r2 rest Hwf2 Hb2) as (r3 & E3 & Hb3 & Hwf3 & Hp3 & Hk3).
   exists r3. unfold read_residual. rewrite E1. change (negb (0 =? 0)) with false. cbv iota.
   rewrite E2. fold pc. rewrite Hmod. change (negb (0 =? 0)) with false. cbv iota. fold plen.
   destruct (N.ltb_spec plen (r_warmup r)) as [?|_]; [lia|].
@@ -203,7 +203,7 @@ Proof.
   - rewrite Hp3, Hp2, Hp1. rewrite !bits_msb_length. unfold ParseResidual.residual_bits. fold pc plen.
     cbn [length]. rewrite app_length, bits_msb_length, !Nat2N.inj_succ, Nat2N.inj_add.
     change (N.to_nat 2) with 2%nat. change (N.to_nat 4) with 4%nat. lia.
-  - exists (k1 + (k2 + k3))%nat. rewrite Hk3, Hk2, Hk1, !skipn_skipn'. reflexivity.
+  - exact (rd_adv_trans _ _ _ Hk1 (rd_adv_trans _ _ _ Hk2 Hk3)).
 Qed.
 
 (* ---- subframes ---- *)
@@ -219,19 +219,19 @@ Qed.
 Lemma reads_flac_header tag : tag < 64 ->
   forall rd0 rest, rd_wf rd0 -> rd_bits rd0 = header_bits tag ++ rest ->
   exists r1 r2 r3, rbits 1 rd0 = Some (0, r1) /\ rbits 6 r1 = Some (tag, r2) /\ rbits 1 r2 = Some (0, r3)
-                   /\ rd_bits r3 = rest /\ rd_wf r3 /\ rd_pos r3 = rd_pos rd0 + 8 /\ (exists k, r_bytes r3 = skipn k (r_bytes rd0)).
+                   /\ rd_bits r3 = rest /\ rd_wf r3 /\ rd_pos r3 = rd_pos rd0 + 8 /\ rd_adv rd0 r3.
 Proof.
   intros Ht rd0 rest Hwf Hb. unfold header_bits in Hb. rewrite bits7_small in Hb by exact Ht.
   change (false :: bits_msb 6 tag) with (bits_msb (N.to_nat 1) 0 ++ bits_msb (N.to_nat 6) tag) in Hb.
   rewrite <- !app_assoc in Hb.
-  destruct (reads_rbits 1 0 ltac:(reflexivity) rd0 _ Hwf Hb) as (r1 & E1 & Hb1 & Hwf1 & Hp1 & (k1 & Hk1)).
-  destruct (reads_rbits 6 tag ltac:(change (2 ^ 6) with 64; exact Ht) r1 _ Hwf1 Hb1) as (r2 & E2 & Hb2 & Hwf2 & Hp2 & (k2 & Hk2)).
+  destruct (reads_rbits 1 0 ltac:(reflexivity) rd0 _ Hwf Hb) as (r1 & E1 & Hb1 & Hwf1 & Hp1 & Hk1).
+  destruct (reads_rbits 6 tag ltac:(change (2 ^ 6) with 64; exact Ht) r1 _ Hwf1 Hb1) as (r2 & E2 & Hb2 & Hwf2 & Hp2 & Hk2).
   change [false] with (bits_msb (N.to_nat 1) 0) in Hb2.
-  destruct (reads_rbits 1 0 ltac:(reflexivity) r2 _ Hwf2 Hb2) as (r3 & E3 & Hb3 & Hwf3 & Hp3 & (k3 & Hk3)).
+  destruct (reads_rbits 1 0 ltac:(reflexivity) r2 _ Hwf2 Hb2) as (r3 & E3 & Hb3 & Hwf3 & Hp3 & Hk3).
   exists r1, r2, r3. rewrite bits_msb_length in Hp1, Hp2, Hp3.
-  repeat split; try assumption; try apply Hwf3.
+  split; [exact E1|]. split; [exact E2|]. split; [exact E3|]. split; [exact Hb3|]. split; [exact Hwf3|]. split.
   - rewrite Hp3, Hp2, Hp1. change (N.to_nat 1) with 1%nat. change (N.to_nat 6) with 6%nat. lia.
-  - exists (k1 + (k2 + k3))%nat. rewrite Hk3, Hk2, Hk1, !skipn_skipn'. reflexivity.
+  - exact (rd_adv_trans _ _ _ Hk1 (rd_adv_trans _ _ _ Hk2 Hk3)).
 Qed.
 
 Definition sub_u_ok (s : subframe) : Prop :=
@@ -249,21 +249,21 @@ Proof.
     cbn [verify_subframe sub_typed sub_u_ok sub_block sub_bps subframe_bits decode_sub]; intros Hv Ht Hu rd0 rest Hwf Hb.
   - rewrite !Bool.andb_true_iff in Hv. destruct Hv as ((Hblk & Hbps) & Hdc). pose proof (bps_ok_range _ Hbps) as Hr.
     rewrite <- app_assoc in Hb.
-    destruct (reads_flac_header 0 ltac:(lia) rd0 _ Hwf Hb) as (r1 & r2 & r3 & E1 & E2 & E3 & Hb3 & Hwf3 & Hp3 & (k3 & Hk3)).
-    destruct (reads_rsigned_one bps dc ltac:(lia) Hdc r3 rest Hwf3 Hb3) as (r4 & E4 & Hb4 & Hwf4 & Hp4 & (k4 & Hk4)).
+    destruct (reads_flac_header 0 ltac:(lia) rd0 _ Hwf Hb) as (r1 & r2 & r3 & E1 & E2 & E3 & Hb3 & Hwf3 & Hp3 & Hk3).
+    destruct (reads_rsigned_one bps dc ltac:(lia) Hdc r3 rest Hwf3 Hb3) as (r4 & E4 & Hb4 & Hwf4 & Hp4 & Hk4).
     exists r4. unfold read_subframe. rewrite E1. cbn [N.eqb negb]. rewrite E2, E3. cbn [N.eqb negb]. rewrite E4.
     split; [reflexivity|]. split; [exact Hb4|]. split; [exact Hwf4|]. split.
     + rewrite Hp4, Hp3, app_length. unfold header_bits, twoc_bits. rewrite app_length, !bits_msb_length. cbn [length]. lia.
-    + exists (k3 + k4)%nat. rewrite Hk4, Hk3. apply skipn_skipn'.
+    + exact (rd_adv_trans _ _ _ Hk3 Hk4).
   - rewrite !Bool.andb_true_iff in Hv. destruct Hv as ((Hblk & Hbps) & Hxs). pose proof (bps_ok_range _ Hbps) as Hr.
     rewrite <- app_assoc in Hb.
-    destruct (reads_flac_header 1 ltac:(lia) rd0 _ Hwf Hb) as (r1 & r2 & r3 & E1 & E2 & E3 & Hb3 & Hwf3 & Hp3 & (k3 & Hk3)).
-    destruct (reads_rmany_signed bps ltac:(lia) xs Hxs r3 rest Hwf3 Hb3) as (r4 & E4 & Hb4 & Hwf4 & Hp4 & (k4 & Hk4)).
+    destruct (reads_flac_header 1 ltac:(lia) rd0 _ Hwf Hb) as (r1 & r2 & r3 & E1 & E2 & E3 & Hb3 & Hwf3 & Hp3 & Hk3).
+    destruct (reads_rmany_signed bps ltac:(lia) xs Hxs r3 rest Hwf3 Hb3) as (r4 & E4 & Hb4 & Hwf4 & Hp4 & Hk4).
     exists r4. unfold read_subframe. rewrite E1. cbn [N.eqb negb]. rewrite E2, E3. cbn [N.eqb Pos.eqb negb].
     rewrite Nat2N.id, E4.
     split; [reflexivity|]. split; [exact Hb4|]. split; [exact Hwf4|]. split.
     + rewrite Hp4, Hp3, app_length. unfold header_bits. rewrite app_length, !bits_msb_length. cbn [length]. lia.
-    + exists (k3 + k4)%nat. rewrite Hk4, Hk3. apply skipn_skipn'.
+    + exact (rd_adv_trans _ _ _ Hk3 Hk4).
   - rewrite !Bool.andb_true_iff in Hv. destruct Hv as (((Hbps & Hwm) & Hwl) & Hres). pose proof (bps_ok_range _ Hbps) as Hr.
     apply N.eqb_eq in Hwl.
     destruct (verify_residual_facts res Hres) as (_ & _ & _ & _ & _ & Hpc & _ & Hww & _).
@@ -272,9 +272,9 @@ Proof.
     { rewrite <- Hwl. eapply N.le_trans; [exact Hww|]. apply N.div_le_upper_bound; [apply pow2_nz|].
       pose proof (pow2_pos (r_order res)). nia. }
     rewrite <- !app_assoc in Hb.
-    destruct (reads_flac_header (8 + order) ltac:(lia) rd0 _ Hwf Hb) as (r1 & r2 & r3 & E1 & E2 & E3 & Hb3 & Hwf3 & Hp3 & (k3 & Hk3)).
-    destruct (reads_rmany_signed bps ltac:(lia) warm Hwm r3 _ Hwf3 Hb3) as (r4 & E4 & Hb4 & Hwf4 & Hp4 & (k4 & Hk4)).
-    pose proof (reads_read_residual res Hres Hu r4 rest Hwf4 Hb4) as (r5 & E5 & Hb5 & Hwf5 & Hp5 & (k5 & Hk5)).
+    destruct (reads_flac_header (8 + order) ltac:(lia) rd0 _ Hwf Hb) as (r1 & r2 & r3 & E1 & E2 & E3 & Hb3 & Hwf3 & Hp3 & Hk3).
+    destruct (reads_rmany_signed bps ltac:(lia) warm Hwm r3 _ Hwf3 Hb3) as (r4 & E4 & Hb4 & Hwf4 & Hp4 & Hk4).
+    pose proof (reads_read_residual res Hres Hu r4 rest Hwf4 Hb4) as (r5 & E5 & Hb5 & Hwf5 & Hp5 & Hk5).
     exists r5. unfold read_subframe. rewrite E1. cbn [N.eqb negb]. rewrite E2, E3. cbn [N.eqb negb].
     destruct (N.eqb_spec (8 + order) 0) as [?|_]; [lia|].
     destruct (N.eqb_spec (8 + order) 1) as [?|_]; [lia|].
@@ -286,7 +286,7 @@ Proof.
     rewrite Hwl in E5. rewrite E5. unfold order. rewrite !Nat2N.id.
     split; [reflexivity|]. split; [exact Hb5|]. split; [exact Hwf5|]. split.
     + rewrite Hp5, Hp4, Hp3, !app_length. unfold header_bits. rewrite app_length, !bits_msb_length. cbn [length]. lia.
-    + exists (k3 + (k4 + k5))%nat. rewrite Hk5, Hk4, Hk3, !skipn_skipn'. reflexivity.
+    + exact (rd_adv_trans _ _ _ Hk3 (rd_adv_trans _ _ _ Hk4 Hk5)).
   - rewrite !Bool.andb_true_iff in Hv. destruct Hv as (((((Hqv & Ho1) & Hwl) & Hbps) & Hwm) & Hres).
     pose proof (bps_ok_range _ Hbps) as Hr. apply N.eqb_eq in Hwl. apply N.leb_le in Ho1.
     destruct (verify_qparams_facts q Hqv) as (Ho & Hs & Hp & Hc). unfold q_order in Ho. rewrite Ht in Ho.
@@ -296,12 +296,12 @@ Proof.
     { rewrite <- Hwl. eapply N.le_trans; [exact Hww|]. apply N.div_le_upper_bound; [apply pow2_nz|].
       pose proof (pow2_pos (r_order res)). nia. }
     rewrite <- !app_assoc in Hb.
-    destruct (reads_flac_header (32 + (order - 1)) ltac:(lia) rd0 _ Hwf Hb) as (r1 & r2 & r3 & E1 & E2 & E3 & Hb3 & Hwf3 & Hp3 & (k3 & Hk3)).
-    destruct (reads_rmany_signed bps ltac:(lia) warm Hwm r3 _ Hwf3 Hb3) as (r4 & E4 & Hb4 & Hwf4 & Hp4 & (k4 & Hk4)).
-    destruct (reads_rbits 4 (q_precision q - 1) ltac:(change (2 ^ 4) with 16; lia) r4 _ Hwf4 Hb4) as (r5 & E5 & Hb5 & Hwf5 & Hp5 & (k5 & Hk5)).
-    destruct (reads_rsigned 5 (q_shift q) ltac:(lia) ltac:(cbn; lia) r5 _ Hwf5 Hb5) as (r6 & E6 & Hb6 & Hwf6 & Hp6 & (k6 & Hk6)).
-    destruct (reads_rmany_signed (q_precision q) ltac:(lia) (q_coefs q) Hc r6 _ Hwf6 Hb6) as (r7 & E7 & Hb7 & Hwf7 & Hp7 & (k7 & Hk7)).
-    pose proof (reads_read_residual res Hres Hu r7 rest Hwf7 Hb7) as (r8 & E8 & Hb8 & Hwf8 & Hp8 & (k8 & Hk8)).
+    destruct (reads_flac_header (32 + (order - 1)) ltac:(lia) rd0 _ Hwf Hb) as (r1 & r2 & r3 & E1 & E2 & E3 & Hb3 & Hwf3 & Hp3 & Hk3).
+    destruct (reads_rmany_signed bps ltac:(lia) warm Hwm r3 _ Hwf3 Hb3) as (r4 & E4 & Hb4 & Hwf4 & Hp4 & Hk4).
+    destruct (reads_rbits 4 (q_precision q - 1) ltac:(change (2 ^ 4) with 16; lia) r4 _ Hwf4 Hb4) as (r5 & E5 & Hb5 & Hwf5 & Hp5 & Hk5).
+    destruct (reads_rsigned 5 (q_shift q) ltac:(lia) ltac:(cbn; lia) r5 _ Hwf5 Hb5) as (r6 & E6 & Hb6 & Hwf6 & Hp6 & Hk6).
+    destruct (reads_rmany_signed (q_precision q) ltac:(lia) (q_coefs q) Hc r6 _ Hwf6 Hb6) as (r7 & E7 & Hb7 & Hwf7 & Hp7 & Hk7).
+    pose proof (reads_read_residual res Hres Hu r7 rest Hwf7 Hb7) as (r8 & E8 & Hb8 & Hwf8 & Hp8 & Hk8).
     exists r8. unfold read_subframe. rewrite E1. cbn [N.eqb negb]. rewrite E2, E3. cbn [N.eqb negb].
     destruct (N.eqb_spec (32 + (order - 1)) 0) as [?|_]; [lia|].
     destruct (N.eqb_spec (32 + (order - 1)) 1) as [?|_]; [lia|].
@@ -320,7 +320,7 @@ Proof.
     split; [reflexivity|]. split; [exact Hb8|]. split; [exact Hwf8|]. split.
     + rewrite Hp8, Hp7, Hp6, Hp5, Hp4, Hp3, !app_length. unfold header_bits, twoc_bits.
       rewrite app_length, !bits_msb_length. cbn [length]. lia.
-    + exists (k3 + (k4 + (k5 + (k6 + (k7 + k8)))))%nat. rewrite Hk8, Hk7, Hk6, Hk5, Hk4, Hk3, !skipn_skipn'. reflexivity.
+    + exact (rd_adv_trans _ _ _ Hk3 (rd_adv_trans _ _ _ Hk4 (rd_adv_trans _ _ _ Hk5 (rd_adv_trans _ _ _ Hk6 (rd_adv_trans _ _ _ Hk7 Hk8))))).
 Qed.
 
 (* end to end for one subframe: what the encoder returns, serialised by the byte sink, is decoded by the
